@@ -174,6 +174,16 @@ CONTEXTS = {
     'nested': lambda s: {'k': [s]} if isinstance(s, str) else {b'k': [s]},
 }
 
+# (piece, long string that ends in that piece and is quoted the other way):
+# both are printed in the same value, the piece first
+INTERFERENCE = [
+    ('x"y', "it's it's it's it's x\"y"),
+    (' ', "don't \" \" \" do it's"),
+    ("it's", 'say "a" "b" "c" "d" it\'s'),
+    ('a\\b', "it's it's it's a\\b"),
+    ('"', "isn't isn't isn't \""),
+]
+
 
 def eval_ns():
     import vf
@@ -189,7 +199,12 @@ class ContextCase(pfbase.CfgCase):
         s = params['s']
         self.s = to_bytes(s) if params['kind'] == 'bytes' else s
         self.ctxname = params['context']
-        self.value = CONTEXTS[self.ctxname](self.s)
+        if self.ctxname == 'pair':
+            first = params['first']
+            self.first = to_bytes(first) if params['kind'] == 'bytes' else first
+            self.value = [self.first, self.s]
+        else:
+            self.value = CONTEXTS[self.ctxname](self.s)
         self.indent = params.get('indent', 4)
 
     def run(self, w, rw):
@@ -205,6 +220,7 @@ class ContextCase(pfbase.CfgCase):
             return self.judge(text, w, rw)
 
     def judge(self, text, w, rw):
+        self._skipped_first = False
         describe = lambda: 's=%r context=%s w=%r rw=%r\noutput:\n%s' % (
             self.s, self.ctxname, w, rw, text)
         try:
@@ -218,6 +234,15 @@ class ContextCase(pfbase.CfgCase):
                 continue
             lit = t.string
             if self.ctxname == 'nested' and lit in ("'k'", "b'k'"):
+                continue
+            if self.ctxname == 'pair' and not pieces and not getattr(self, '_skipped_first', False):
+                # the first STRING token is the companion element
+                self._skipped_first = True
+                try:
+                    if ast.literal_eval(lit) != self.first:
+                        return self.fail('C02:literals-do-not-concatenate-to-value', describe)
+                except Exception:
+                    return self.fail('C02:piece-not-a-literal', describe)
                 continue
             prefix = lit[:len(lit) - len(lit.lstrip('bBrRuUfF'))]
             if ('b' in prefix.lower()) != is_bytes:
@@ -532,6 +557,11 @@ def cases(tier, seed):
                 out.append({'name': 'ctx-long:%s:%s:%d|%s' % (kind, c, j, sl), 'family': 'context',
                             'params': {'s': s, 'kind': kind, 'context': c, 'slice': sl},
                             'budget': 100.0 if tier == 'quick' else 400.0, 'path_timeout': 40.0})
+    for j, (piece, long_) in enumerate(INTERFERENCE):
+        for kind in ('str', 'bytes'):
+            out.append({'name': 'ctx-pair:%s:%d' % (kind, j), 'family': 'context',
+                        'params': {'s': long_, 'first': piece, 'kind': kind, 'context': 'pair', 'slice': 'page'},
+                        'budget': 90.0, 'path_timeout': 30.0})
     # ---- escape kernel
     out.append({'name': 'escape:ascii<=2', 'family': 'escape',
                 'params': {'maxlen': 2}, 'budget': 200.0 if tier == 'quick' else 600.0,
